@@ -29,7 +29,7 @@ Inductive wact : Type :=
 | WUnknown.
 
 Definition is_item_loop (s : string) : bool :=
-  prefix "for { decl bucket = op(*buckets, i); " s &&
+  prefix "for { decl bucket = operator[](*buckets, i); " s &&
   has "for { --bucketIter; decl hashCode = bucket.GetHashCodePart(" s &&
   has "bucketIter = bucket.Remove(bucketParams, bucketIter, itemReplacer) } }" s.
 
